@@ -106,7 +106,7 @@ HIST_RULE = ("history: random multi-round histories of one or two LLO instances 
              "targets with additions, in-place replacements (resolution-changing format swaps) and removals; skipped sequence numbers; "
              "hand-built previous outcomes (any stage string, dangling validity starts, aggregates of every type). Each round is evaluated "
              "from the implementation's own previous outcome. A case is one history; distinct by SHA-1 of its input.")
-HIST_N = dict(n_quick=96, n_thorough=1500)
+HIST_N = dict(n_quick=96, n_thorough=600)
 BRANCH_NAMES['history'] = ['rounds', 'channel_reports', 'promotions', 'retirements', 'erroring_rounds', 'outcome_bytes_compared']
 
 
@@ -154,13 +154,13 @@ PROPS['C18'] = hist_prop(7,
     "pair is kept, replaced by a strictly newer one, or by a non-timestamped value only if aggregation yields one; when aggregation "
     "fails it is carried forward bit for bit; aggregates of unreferenced pairs are dropped.",
     "none beyond the model/implementation correspondence")
-PROPS['C02']['projections'].append(dict(name='history', spec_index=1, n_quick=60, n_thorough=1000))
+PROPS['C02']['projections'].append(dict(name='history', spec_index=1, n_quick=60, n_thorough=600))
 
 BRANCH_NAMES['determinism'] = ['evaluations', 'rounds']
 PROPS['C01'] = dict(
     level='proof',
     projections=[dict(name='determinism', spec_index=1, n_quick=60, n_thorough=600),
-                 dict(name='history', spec_index=None, n_quick=96, n_thorough=1500),
+                 dict(name='history', spec_index=None, n_quick=96, n_thorough=600),
                  dict(name='agg', args=['-kinds', '0,1,2'], spec_index=1, n_quick=900, n_thorough=20000)],
     rule="determinism: every round of directed histories (two competing definitions with f+1 votes each, ...) and of generated histories "
          "(order-stress: 2..22 channels over 4 streams under 3 aggregators, competing definitions, equal-count type/mode ties, numerically equal "
